@@ -30,6 +30,9 @@ pub fn path(name: &str) -> String {
 }
 
 pub fn cleanup() {
+    if std::env::var("VERIF_KEEP_SCRATCH").is_ok() {
+        return;
+    }
     if let Some(d) = DIR.get() {
         let _ = std::fs::remove_dir_all(d);
     }
